@@ -138,7 +138,9 @@ def run(ctx):
                         'comments the trivia option selects may be removed or kept (the property only forbids losing '
                         'unselected ones); post-stream own-token flags come from ast.parse of the post source']
     ctx.model('TokenMC', 'TokenMC' if ctx.quick else 'TokenMC_thorough',
-              required=('DoDelete', 'DoReplace', 'DoInsert', 'Damage'))
+              required=('DoDelete', 'DoReplace', 'DoInsert', 'DropFarComment', 'DropNearComment', 'DupComment',
+                        'DropLineComment', 'ReindentFarLine', 'SwapFarStatements', 'DropFarBlank', 'DropNearBlank',
+                        'GlueComment'))
     n_hist, n_steps = (300, 8) if ctx.quick else (3600, 10)
     specs = history_specs(ctx, n_hist, n_steps)
     res = generate(specs)
